@@ -98,6 +98,9 @@ void bn_mod_barrt(bn_t c, const bn_t a, const bn_t m, const bn_t u) {
 
 	if (bn_cmp_abs(a, m) == RLC_LT) {
 		bn_copy(c, a);
+		if (bn_sign(c) == RLC_NEG) {
+			bn_add(c, c, m);
+		}
 		return;
 	}
 
@@ -156,7 +159,7 @@ void bn_mod_barrt(bn_t c, const bn_t a, const bn_t m, const bn_t u) {
 		}
 
 		bn_copy(c, t);
-		if (neg) {
+		if (neg && !bn_is_zero(c)) {
 			bn_sub(c, m, c);
 		}
 	}
@@ -370,7 +373,7 @@ void bn_mod_pmers(bn_t c, const bn_t a, const bn_t m, const bn_t u) {
 			bn_sub(c, c, m);
 		}
 
-		if (neg) {
+		if (neg && !bn_is_zero(c)) {
 			bn_sub(c, m, c);
 		}
 	}
